@@ -73,6 +73,11 @@ class Ctx:
     def executor(self, **kw):
         overrides = kw.pop('overrides', None)
         disabled = kw.pop('disabled_faults', ())
+        # the thorough tier explores larger bounds: give the executor more time (an exhausted budget is reported as undecided, never as a pass)
+        scale = float(os.environ.get('VERIF_TIME_SCALE', '1')) * (6 if self.tier == 'thorough' else 1)
+        kw['timeout_s'] = int(kw.get('timeout_s', 120) * scale)
+        if self.tier == 'thorough':
+            kw['max_paths'] = max(kw.get('max_paths', 4000), 20000)
         ex = symex.Executor(self.prog, self.src, contract.Contract(overrides, disabled), **kw)
         return ex
 
